@@ -65,6 +65,7 @@ def scenarios(tier, pid):
        "--watch", "10", "--preempt", 2)
     # a batch handed to another thread is scanned while the instance hands out the next one
     sc("two_scanners_one_delivery", ("C10",), "--consumer", "y,p", "--others", "D10;Y", "--preempt", 2)
+    sc("raw_two_scanners", ("C10",), "--raw", "--consumer", "y,p,p", "--others", "D10,D10,D10;Y", "--preempt", 2)
     sc("raw_duplicate_in_initial_set", ("C10", "C12"), "--raw", "--consumer", "p,p", "--others", "D10,D12",
        "--watch", "10,12,10", "--preempt", 1)
     sc("burst_same_signal", ("C10",), "--consumer", "p,p,p", "--others", "D10,D10,D10;D10",
@@ -82,6 +83,9 @@ def scenarios(tier, pid):
     sc("close_vs_wait", ("C11", "C09"), "--consumer", "w,w", "--others", "c", "--preempt", 4)
     sc("close_vs_forever", ("C11",), "--consumer", "f3", "--others", "c;D10", "--preempt", 2)
     sc("two_closers_and_query", ("C11",), "--consumer", "b2", "--others", "c,q;h,c,q", "--preempt", 2)
+    # an earlier add_signal panicked (forbidden number, caught by its caller): close() must still work
+    sc("close_after_refused_add_vs_wait", ("C11", "C12"), "--consumer", "w", "--others", "a9,c", "--preempt", 2)
+    sc("close_after_refused_add_vs_poll", ("C11", "C12"), "--consumer", "b2", "--others", "a9;c", "--preempt", 2)
     sc("close_then_calls", ("C11",), "--consumer", "w,p,f2", "--others", "c", "--preempt", 1)
     sc("close_vs_poll_and_delivery", ("C11", "C09"), "--consumer", "b3", "--others", "c;D10",
        "--preempt", 2)
